@@ -14,7 +14,7 @@ def label(spec):
 
 def default_spec(kind, **kw):
     d = dict(kind=kind, ask='Basic', bidfee=False, cfg_ask_fee=False, cfg_bid_fee=False, nfunds=0, n_exec=2, n_appr=1, n_conv=1, n_quote=1,
-             n_ask_attr=0, n_bid_attr=0, n_attrs=0, extra_ask=None, extra_bid=None, reqfee=False)
+             n_ask_attr=0, n_bid_attr=0, n_attrs=0, extra_ask=None, extra_bid=None, reqfee=False, markers=None, mod=None, lens=None)
     d.update(kw)
     return d
 
@@ -46,7 +46,14 @@ def specs_for(kinds, tier, funds_variants=True):
                         for cb in cbs:
                             if cls == 'Pending' and (af or (bf and not cb)):
                                 continue
-                            out.append(default_spec(k, ask=cls, bidfee=bf, cfg_ask_fee=af, cfg_bid_fee=cb))
+                            # the marker-type assignment is split into separate jobs (same coverage, better load balance)
+                            names = ('base', 'quote') if cls != 'Ready' else ('base', 'quote', 'conv')
+                            if cls == 'Pending':
+                                out.append(default_spec(k, ask=cls, bidfee=bf, cfg_ask_fee=af, cfg_bid_fee=cb))
+                                continue
+                            for bits in range(2 ** len(names)):
+                                mk = tuple((n, bool(bits >> i & 1)) for i, n in enumerate(names))
+                                out.append(default_spec(k, ask=cls, bidfee=bf, cfg_ask_fee=af, cfg_bid_fee=cb, markers=mk))
             if funds_variants:
                 out.append(default_spec(k, ask='Basic', nfunds=1))
         elif k == 'CreateAsk':
@@ -64,6 +71,19 @@ def specs_for(kinds, tier, funds_variants=True):
             out.append(default_spec(k, reqfee=True, cfg_bid_fee=True, nfunds=1, n_bid_attr=1, n_attrs=1))
             out.append(default_spec(k, reqfee=False, cfg_bid_fee=False, nfunds=0, n_bid_attr=2, n_attrs=2))
             out.append(default_spec(k, reqfee=False, cfg_bid_fee=False, nfunds=1, n_bid_attr=2, n_attrs=1))
+        elif k == 'ModifyContract':
+            names = ['approvers', 'executors', 'ask_fee_rate', 'ask_fee_account', 'bid_fee_rate', 'bid_fee_account', 'ask_required_attributes', 'bid_required_attributes']
+            cfgs = [(False, False), (True, True)] if tier == 'quick' else [(False, False), (True, True), (True, False), (False, True)]
+            for af, bf in cfgs:
+                for bits in range(256):
+                    mod = tuple((n, bool(bits >> i & 1)) for i, n in enumerate(names))
+                    out.append(default_spec(k, cfg_ask_fee=af, cfg_bid_fee=bf, mod=mod, lens=(('approvers', 2), ('executors', 1)), n_appr=1 + (bits & 1), n_ask_attr=1, n_bid_attr=bits >> 7 & 1))
+                # list-length corner cases
+                for nm in ('approvers', 'executors', 'ask_required_attributes', 'bid_required_attributes'):
+                    for ln in (0, 1, 2, 3):
+                        mod = tuple((n, n == nm) for n in names)
+                        out.append(default_spec(k, cfg_ask_fee=af, cfg_bid_fee=bf, mod=mod, lens=((nm, ln),), n_appr=2, n_ask_attr=1, n_bid_attr=1))
+            out.append(default_spec(k, mod=tuple((n, False) for n in names), nfunds=1))
     return out
 
 
@@ -88,6 +108,11 @@ def build(eng, bounds, spec):
         sc.add_bid(bool(spec['extra_bid']))
     sc.abstract_rest()
     sc.set_attrs(spec['n_attrs'])
+    if spec.get('markers'):
+        from .harness import restricted
+        terms = {'base': sc.cfgf('base_denom'), 'quote': sc.cfgf('supported_quote_denoms')[0], 'conv': sc.asks[0]['base']}
+        for name, flag in spec['markers']:
+            sc.assume.append(restricted(terms[name]) == flag)
     S, I = sc.s, sc.i
     B = bounds.B
     req = {'kind': kind, 'spec': spec}
@@ -129,6 +154,38 @@ def build(eng, bounds, spec):
         ps, pn, pd = sc.free_decimal_string('req.price')
         req.update(ask_id=S('req.ask_id'), bid_id=S('req.bid_id'), price=ps, pn=pn, pd=pd, size=I('req.size', 0, B))
         msg = ti.mk('ExecuteMsg', 'ExecuteMatch', ask_id=req['ask_id'], bid_id=req['bid_id'], price=ps, size=U(req['size']))
+    elif kind == 'ModifyContract':
+        m = dict(spec['mod'])
+        lens = dict(spec.get('lens') or ())
+
+        def opt_list(name, role):
+            if not m.get(name):
+                return NONE(), None
+            l = [S('req.%s%d' % (role, k)) for k in range(lens.get(name, 1))]
+            return some(l), l
+
+        def opt_str(name, decimal=False):
+            if not m.get(name):
+                return NONE(), None
+            if decimal:
+                t, _, _ = sc.free_decimal_string('req.' + name)
+            else:
+                t = S('req.' + name)
+            return some(t), t
+        fields = {}
+        vals = {}
+        vals['approvers'], req['approvers'] = opt_list('approvers', 'approver')
+        vals['executors'], req['executors'] = opt_list('executors', 'executor')
+        vals['ask_fee_rate'], req['ask_fee_rate'] = opt_str('ask_fee_rate', True)
+        vals['ask_fee_account'], req['ask_fee_account'] = opt_str('ask_fee_account')
+        vals['bid_fee_rate'], req['bid_fee_rate'] = opt_str('bid_fee_rate', True)
+        vals['bid_fee_account'], req['bid_fee_account'] = opt_str('bid_fee_account')
+        vals['ask_required_attributes'], req['ask_required_attributes'] = opt_list('ask_required_attributes', 'ask_attr')
+        vals['bid_required_attributes'], req['bid_required_attributes'] = opt_list('bid_required_attributes', 'bid_attr')
+        msg = ti.mk('ExecuteMsg', 'ModifyContract', **vals)
+        # the stored version record is a real one (written by instantiate / migrate): parseable
+        from .engine import f_sv_ok
+        sc.shape['version_symbolic'] = True
     else:
         raise ValueError(kind)
     req['msg'] = msg
